@@ -165,7 +165,7 @@ class Full(Engine):
         if isinstance(f, str):
             return self.method(o, f, args, kwargs, pc)
         if isinstance(o, Guarded):
-            return self.dist(o, lambda v: self.call_bound(BoundSym(f, v), args, kwargs, pc))
+            return self.dist_pc(o, pc, lambda v, p: self.call_bound(BoundSym(f, v), args, kwargs, p))
         return self.call_function(f, [o] + list(args), kwargs, pc)
 
     # ------------------------------------------------------------------ instantiation
@@ -173,7 +173,7 @@ class Full(Engine):
         if issubclass(cls, enum.Enum):
             (v,) = args
             if isinstance(v, Guarded):
-                return self.dist(v, lambda x: self.instantiate(cls, [x], kwargs, pc))
+                return self.dist_pc(v, pc, lambda x, p: self.instantiate(cls, [x], kwargs, p))
             if isinstance(v, EnumSym):
                 return v
             if not self.is_sym(v):
@@ -270,7 +270,7 @@ class Full(Engine):
         anysym = any(self.is_sym(a) or isinstance(a, Opaque) for a in list(args) + list(kwargs.values()))
         for i, a in enumerate(args):
             if isinstance(a, Guarded) and fn not in (isinstance, print):
-                return self.dist(a, lambda v: self.call(fn, list(args[:i]) + [v] + list(args[i + 1:]), kwargs, pc))
+                return self.dist_pc(a, pc, lambda v, p: self.call(fn, list(args[:i]) + [v] + list(args[i + 1:]), kwargs, p))
         if fn is print:
             return None
         if fn in (str, repr, format):
@@ -838,7 +838,7 @@ class Full(Engine):
     # ------------------------------------------------------------------ methods of modelled values
     def method(self, o, name, args, kwargs, pc):
         if isinstance(o, Guarded):
-            return self.dist(o, lambda v: self.method(v, name, args, kwargs, pc))
+            return self.dist_pc(o, pc, lambda v, p: self.method(v, name, args, kwargs, p))
         if isinstance(o, z3.ExprRef):
             if name == "to_bytes":
                 return self.to_bytes(o, args, kwargs, pc)
